@@ -954,7 +954,7 @@ def run(ctx):
         if s.get('expect') == 'crash-witness':
             # the model's crash outcome did not reproduce: the model is wrong (or /repo was fixed)
             if real[0] != 'cfgerr':
-                ctx.corr_broken.append('the witness of Patch.update_crash_witness is accepted by the real front end')
+                ctx.violation('an included object with an empty mapping as members item is accepted by the front end', replay)
             stats['crash-witness:now-a-configuration-error'] += 1
             continue
         if s['flat_doc'] is None and s['flat_doc_err'].startswith('undefined'):
